@@ -40,15 +40,17 @@ def build(spec):
     if spec.get("ints"):
         spec = dict(spec, cap=as_given(spec, spec["cap"]), init=as_given(spec, spec["init"]), maxp=as_given(spec, spec["maxp"]))
     if spec["model"] == "ideal":
-        return Battery(spec["cap"], spec["init"], spec["maxp"])
-    return Linear2StageBattery(
-        spec["cap"],
-        spec["init"],
-        spec["maxp"],
-        noise_level=0,
-        transition_soc=spec["tsoc"],
-        charge_calculation="continuous" if spec["model"] == "cont" else "stepwise",
-    )
+        b = Battery(spec["cap"], spec["init"], spec["maxp"])
+        return Battery.from_json(b.to_json()) if spec.get("via_json") else b
+    opt = "continuous" if spec["model"] == "cont" else "stepwise"
+    if spec.get("option_from_config"):
+        # the option arrives from a configuration file / JSON: an equal string, not the literal
+        opt = "".join(list(opt))
+    b = Linear2StageBattery(spec["cap"], spec["init"], spec["maxp"], noise_level=0, transition_soc=spec["tsoc"], charge_calculation=opt)
+    if spec.get("via_json"):
+        # the battery as it comes back from a saved file
+        b = Linear2StageBattery.from_json(b.to_json())
+    return b
 
 
 def expected(spec, charge, pilot, T):
@@ -91,6 +93,8 @@ def prop(spec, rec):
     labels = {spec["model"]}
     if spec.get("ints"):
         labels.add("integer_arguments")
+    if spec.get("via_json"):
+        labels.add("battery_restored_from_json")
 
     # 1. the law, step by step along a trajectory (each step judged from the actual state before it)
     b = build(spec)
@@ -254,6 +258,8 @@ def cases(draw):
             periods.append(periods[-1] / f)
         pilots = p2
     return {
+        "option_from_config": draw(st.booleans()),
+        "via_json": draw(st.integers(0, 3)) == 0,
         "periods": periods,
         "ints": ints,
         "model": draw(st.sampled_from(["ideal", "cont", "cont", "cont", "step"])),
